@@ -30,6 +30,8 @@ WITH THE SOFTWARE OR THE USE OR OTHER DEALINGS IN THE SOFTWARE.
 #include <common/TreeOps.h>
 #include <smtsolvers/SimpSMTSolver.h>
 
+#include <unordered_set>
+
 #ifdef PEDANTIC_DEBUG
 #define TRACE(x) std::cerr << x << std::endl;
 #define TRACE_FLA_VEC(v)                                                                                               \
@@ -114,12 +116,13 @@ bool Cnfizer::isClause(PTRef e) {
     if (not logic.isOr(e)) { return false; }
     vec<PTRef> to_process;
     to_process.push(e);
+    std::unordered_set<PTRef, PTRefHash> seen; // a shared sub-disjunction is entered once, not once per path
     while (to_process.size() != 0) {
         PTRef current = to_process.last();
         to_process.pop();
         for (PTRef child : logic.getPterm(current)) {
             if (logic.isOr(child)) {
-                to_process.push(child);
+                if (seen.insert(child).second) { to_process.push(child); }
             } else {
                 if (not isLiteral(child)) { return false; }
             }
@@ -146,6 +149,7 @@ bool Cnfizer::checkPureConj(PTRef e, Map<PTRef, bool, PTRefHash> & check_cache) 
     while (to_process.size() != 0) {
         PTRef current = to_process.last();
         to_process.pop();
+        if (check_cache.has(current)) { continue; } // a shared sub-conjunction is entered once, not once per path
 
         if (logic.isAnd(current)) {
             for (PTRef tr : logic.getPterm(current)) {
@@ -177,28 +181,38 @@ void Cnfizer::processClause(PTRef f) {
     throw InternalException("UNREACHABLE: Unexpected situation in Cnfizer");
 }
 
+// In both traversals a shared sub-formula is entered once: entering it once per path takes time (and gives a clause
+// with as many copies of its literals) exponential in the depth of a formula that is small as a DAG.
 void Cnfizer::retrieveClause(PTRef f, vec<Lit> & clause) {
     assert(isLiteral(f) or logic.isOr(f));
-    if (isLiteral(f)) {
-        clause.push(getOrCreateLiteralFor(f));
-    } else if (logic.isOr(f)) {
-        Pterm const & t = logic.getPterm(f);
-        for (PTRef tr : t) {
-            retrieveClause(tr, clause);
+    std::unordered_set<PTRef, PTRefHash> seen;
+    auto visit = [&](auto && self, PTRef g) -> void {
+        if (isLiteral(g)) {
+            clause.push(getOrCreateLiteralFor(g));
+        } else if (logic.isOr(g) and seen.insert(g).second) {
+            Pterm const & t = logic.getPterm(g);
+            for (PTRef tr : t) {
+                self(self, tr);
+            }
         }
-    }
+    };
+    visit(visit, f);
 }
 
 void Cnfizer::retrieveConjuncts(PTRef f, vec<PTRef> & conjuncts) {
     assert(isLiteral(f) or logic.isAnd(f));
-    if (isLiteral(f)) {
-        conjuncts.push(f);
-    } else {
-        Pterm const & t = logic.getPterm(f);
-        for (PTRef tr : t) {
-            retrieveConjuncts(tr, conjuncts);
+    std::unordered_set<PTRef, PTRefHash> seen;
+    auto visit = [&](auto && self, PTRef g) -> void {
+        if (isLiteral(g)) {
+            conjuncts.push(g);
+        } else if (seen.insert(g).second) {
+            Pterm const & t = logic.getPterm(g);
+            for (PTRef tr : t) {
+                self(self, tr);
+            }
         }
-    }
+    };
+    visit(visit, f);
 }
 
 bool Cnfizer::Cache::contains(PTRef term, FrameId frame) {
